@@ -302,7 +302,11 @@ def cmd_check(prop, tier, seed, only=None, jobs=None):
                 path = os.path.join(replay_dir, "%s-B%s.json" % (r["contract"], h))
                 with open(path, "w") as f:
                     json.dump(rec, f, indent=1, default=str)
-                if cl in proved_here:
+                # "discharged symbolically but false natively" is a contradiction only if the symbolic pass covered the whole
+                # case.  A case with generation failures (paths that left the modelled subset) was proved only where it could be
+                # generated: a native counterexample there is what the fallback is for -- an ordinary violation.
+                fully_covered = not any(g["outcome"] in ("out-of-subset", "needs-contract", "path-limit", "engine-crash") for g in r["generation_errors"])
+                if cl in proved_here and fully_covered:
                     tierb_errors.append("SOUNDNESS: %s[%s].%s was discharged symbolically but is FALSE on the real code (replay=%s)"
                                         % (r["contract"], r["case"], cl, path))
                 elif match_finding(findings, prop, r["contract"], r["case"], cl) is not None:
@@ -404,6 +408,9 @@ def cmd_check(prop, tier, seed, only=None, jobs=None):
     print("property=%s tier=%s cases=%d obligations=%d discharged=%d fragile=%d known=%d violations=%d undecided=%d canaries=%d/%d wall=%.1fs"
           % (prop, tier, len(work), obligations, discharged, len(fragile), len(known_hits), len(violations), len(undecided),
              canaries_refuted, canaries_total, wall))
+    # a counterexample confirmed on the real code is decisive, whatever else went wrong in the run
+    if any(rec["confirmed_on_real_code"] for rec, path in violations):
+        return 1
     if engine_errors:
         return 3
     if violations:
